@@ -39,8 +39,8 @@ func (e *Exec) RunFunction(fn *ssa.Function) (err error) {
 	if c := e.contractOf(fn); c != nil && c.Options["no-lambda"] {
 		e.Opt.NoLambda = true // bulk copies as pattern-guarded quantified axioms instead of lambda arrays
 	}
-	if c := e.contractOf(fn); c != nil && (c.Options["trace"] || c.Options["eval-once"] || c.Options["forward-exits"] || c.Options["forward-body-exits"] || len(c.AtEvals) > 0) {
-		InstallTrace(e, &TraceHook{EvalOnce: c.Options["eval-once"], ForwardExits: c.Options["forward-exits"], ForwardBodyExits: c.Options["forward-body-exits"], ConsumesReturn: c.Options["consumes-return"], AtEvals: c.AtEvals})
+	if c := e.contractOf(fn); c != nil && (c.Options["trace"] || c.Options["eval-once"] || c.Options["forward-exits"] || c.Options["forward-body-exits"] || c.Options["lock-balance"] || len(c.AtEvals) > 0) {
+		InstallTrace(e, &TraceHook{LockBalance: c.Options["lock-balance"], EvalOnce: c.Options["eval-once"], ForwardExits: c.Options["forward-exits"], ForwardBodyExits: c.Options["forward-body-exits"], ConsumesReturn: c.Options["consumes-return"], AtEvals: c.AtEvals})
 		e.ghostOn = true
 	}
 	st := &State{pc: True, heap: map[string]*Term{}}
